@@ -46,6 +46,24 @@ class Sys:
             s = zq.ZMQSender(addrs if len(addrs) > 1 else addrs[0], p['name'], None, bool(p.get('balance')), p.get('required'))
             self.pubs.append({'spec': p, 'sender': s, 'idx': 0, 'published': 0})
 
+        self.relays = []
+
+        for rl in cfg.get('relays', ()):      # receiver + sender coupled by the real MQ class, driven like Filter.loop_once with timeout 0
+            mq  = _mods()['mq']
+            before = len(w.net.all_sockets)
+            srcs = []
+
+            for (addr, topics, eph) in rl['sources']:
+                a = f'ipc://{addr}' + '?' * eph
+                srcs.append((a, None) if topics is None else (a, [tuple(t) for t in topics]))
+
+            m = mq.MQ(srcs, f'ipc://{rl["name"]}', rl['name'], outs_jpg=None, outs_metrics=False, outs_filter=False, mq_log=False)
+
+            for sock in w.net.all_sockets[before:]:
+                sock.e2_owner = rl['name']
+
+            self.relays.append({'spec': rl, 'mq': m, 'pending': None, 'nrecv': 0, 'nsent': 0})
+
         for c in cfg['cons']:
             srcs = []
 
@@ -89,6 +107,14 @@ class Sys:
             if len(c['got']) < self.cfg.get('max_deliveries', 99):
                 with_deliveries('con', j, [sd.sub for sd in c['receiver'].senders.values()])
 
+        for k, r in enumerate(self.relays):
+            m = r['mq']
+
+            if r['pending'] is None:
+                with_deliveries('rly', k, [sd.sub for sd in m.receiver.senders.values()])
+            else:
+                with_deliveries('rly', k, m.sender.pulls)
+
         return acts
 
     def _deliver(self, dl):
@@ -120,7 +146,7 @@ class Sys:
             p    = self.pubs[act[1]]
             spec = p['spec']
             mid  = spec['ids'][p['idx']]
-            msgs = {t: [None, simzmq.TB(f'{spec["name"]}:{mid}:{t}'.encode())] for t in spec.get('topics', ['main'])}
+            msgs = {t: [None, simzmq.TB(('{"o":"%s","seq":%d,"tp":"%s"}' % (spec['name'], mid, t)).encode())] for t in spec.get('topics', ['main'])}
             res  = p['sender'].send(msgs, zq.ZMQStateSend(mid), 0)
 
             if res is not None:
@@ -133,6 +159,37 @@ class Sys:
 
             return {'ev': 'pub', 'pub': spec['name'], 'mid': mid, 'res': None if res is None else res.msg_id,
                     'sent_on': [w[2].split('@')[1] for w in sent]}
+
+        if kind == 'rly':
+            r    = self.relays[act[1]]
+            m    = r['mq']
+            spec = r['spec']
+
+            if r['pending'] is None:
+                frames = m.recv(0)
+
+                if frames is None:
+                    return {'ev': 'rly', 'rly': spec['name'], 'what': 'recv-timeout'}
+
+                r['nrecv'] += 1
+                seqs = sorted({f.data.get('seq') for f in frames.values() if isinstance(f.data, dict)})
+
+                if seqs and seqs[0] in spec.get('skip', ()):
+                    m.send(None, 0)          # process() returned None: nothing goes downstream for this id
+
+                    return {'ev': 'rly', 'rly': spec['name'], 'what': 'skipped', 'seqs': seqs}
+
+                r['pending'] = frames
+
+                return {'ev': 'rly', 'rly': spec['name'], 'what': 'received', 'seqs': seqs}
+
+            ok = m.send(r['pending'], 0)
+
+            if ok:
+                r['pending'] = None
+                r['nsent'] += 1
+
+            return {'ev': 'rly', 'rly': spec['name'], 'what': 'sent' if ok else 'send-timeout'}
 
         if kind == 'con':
             c   = self.cons[act[1]]
@@ -148,8 +205,18 @@ class Sys:
                 tags[topic] = next((getattr(part, 'wire', None) for part in msg[1:] if getattr(part, 'wire', None) is not None), None)
 
             c['got'].append(st.msg_id)
+            prov = {}
 
-            return {'ev': 'con', 'con': c['spec']['name'], 'res': st.msg_id, 'tags': tags, 'prev': c['got'][-2] if len(c['got']) > 1 else None}
+            for topic, msg in data.items():
+                try:
+                    import json as _json
+                    d = _json.loads(bytes(msg[1]))
+                    prov[topic] = (d.get('o'), d.get('seq'))
+                except Exception:  # noqa
+                    pass
+
+            return {'ev': 'con', 'con': c['spec']['name'], 'res': st.msg_id, 'tags': tags, 'prov': prov,
+                    'prev': c['got'][-2] if len(c['got']) > 1 else None}
 
         if kind == 'dlv':
             p   = self.w.net.pipes[act[1]]
@@ -213,7 +280,9 @@ class Sys:
         boxes = tuple((s.sid, tuple((m.info, tuple(m.parts)) for m in s.inbox)) for s in net.all_sockets)
         drv   = (tuple((p['idx'], p['published']) for p in self.pubs), tuple((len(x['got']) if any(e == 0 for _, _, e in x['spec']['sources']) else -1, x['got'][-1] if x['got'] else None) for x in self.cons))
 
-        return hash((tuple(c(p['sender']) for p in self.pubs), tuple(c(x['receiver']) for x in self.cons), pipes, boxes, drv))
+        rly = tuple((c(r['mq']), None if r['pending'] is None else tuple(sorted((t, repr(f.data)) for t, f in r['pending'].items()))) for r in self.relays)
+
+        return hash((tuple(c(p['sender']) for p in self.pubs), tuple(c(x['receiver']) for x in self.cons), rly, pipes, boxes, drv))
 
     def projection(self):
         """What the synchronized part of the system can observe: publisher progress and each synchronized consumer's deliveries."""
@@ -364,7 +433,7 @@ def oracle_protocol(cfg, s, ev, hist):
 
         for c in s.cons:
             for (addr, topics, eph) in c['spec']['sources']:
-                if eph == 0 and not c['spec'].get('balance') and not pubs[addr.split('.')[0]]['spec'].get('balance'):
+                if eph == 0 and addr.split('.')[0] in pubs and not c['spec'].get('balance') and not pubs[addr.split('.')[0]]['spec'].get('balance'):
                     ahead = pubs[addr.split('.')[0]]['published'] - len(c['got'])
 
                     if ahead > B:
@@ -413,8 +482,20 @@ def oracle_protocol(cfg, s, ev, hist):
                 if got != exp:
                     bad('C01', 'partial-set', f'{ev["con"]} got topics {sorted(got)} of {sid} id {l[0][2]}; published {list(pub)}, subscription selects {sorted(exp)}')
 
-            elif not cspec.get('balance') and ev['res'] in pubs[sid]['spec']['ids'] and _sub(pubs[sid]['spec'].get('topics', ['main']), topics):
+            elif not cspec.get('balance') and sid in pubs and ev['res'] in pubs[sid]['spec']['ids'] and _sub(pubs[sid]['spec'].get('topics', ['main']), topics):
                 bad('C01', 'missing-source', f'{ev["con"]} set for id {ev["res"]} holds nothing from synchronized source {sid}, whose script publishes that id')
+
+        anc = {}
+
+        for t, (o, sq) in (ev.get('prov') or {}).items():
+            tag = ev['tags'].get(t)
+
+            if tag is not None and tag[0][1] in sync:
+                anc.setdefault(o, set()).add(sq)
+
+        for o, sqs in anc.items():
+            if len(sqs) > 1:
+                bad('C01', 'mixed-ancestors', f'{ev["con"]} got a set whose frames descend from different frames of {o}: {ev["prov"]}')
 
         if sync and ev['prev'] is not None and ev['res'] <= ev['prev']:
             bad('C02', 'id-not-increasing', f'{ev["con"]} received id {ev["res"]} after id {ev["prev"]}')
